@@ -11,7 +11,15 @@
        preserved (true iff true) -- false and missing may be exchanged, which nothing above
        a positive position can observe;
      - whole rules: with the executable scope Scope.c01_scope_all the verdict of the optimised
-       rule equals the verdict of the unoptimised rule for ALL SIXTEEN switch sets. *)
+       rule equals the verdict of the unoptimised rule for ALL SIXTEEN switch sets.
+   The first two claims carry the executable hypothesis Scope.cmp_reads: every comparison with a
+   constant on the right reads its left field (no str() / not() cast on the left, `str(f) == null`
+   excepted since fix D27).  Their first versions lacked it and were refuted by the proof
+   attempt: such a comparison is false without reading the field, but missing as a matrix cell
+   when the field is absent; the counterexamples are kept below (matrix_exact_flat_refuted,
+   matrix_truth_flat_refuted).  Before fix D27 the loader's `str(f): [null, null]` under `not`
+   refuted the third claim as well; Scope.matrix_input_ok now asks cmp_reads of the trees handed
+   to matrix (and, when identifiers are not inlined, that the condition holds no quantifier). *)
 From Coq Require Import Permutation.
 From TauModel Require Import Base Num Oracles Syntax Value Yaml Pratt ParseMap Solver Rule Keys Optimiser Known.
 From TauModel Require Scope.
@@ -24,22 +32,24 @@ Definition no_multi_cell (ord : hord) (e : expr) : bool :=
 Theorem matrix_exact_flat : forall o ord fuel e e' (d : doc),
   (forall l, Permutation (ord l) l) ->
   wf_body e = true -> C01.no_nested e = true -> C01.cmp_leaves e = true ->
+  Scope.cmp_reads e = true ->
   no_multi_cell ord e = true ->
   exists_sub (d18_here ord) false e = false ->
   matrix ord fuel e = Ok e' ->
   solve_body o e' (pure_doc d) = solve_body o e (pure_doc d).
-Proof. exact C01_matrix.matrix_exact_flat. Qed.
+Proof. exact C01_matrix.matrix_exact_flat_alt. Qed.
 Check matrix_exact_flat.
 Print Assumptions matrix_exact_flat.
 
 Theorem matrix_truth_flat : forall o ord fuel e e' (d : doc),
   (forall l, Permutation (ord l) l) ->
   wf_body e = true -> C01.no_nested e = true -> C01.cmp_leaves e = true ->
+  Scope.cmp_reads e = true ->
   exists_sub (d17_here ord) false e = false ->
   exists_sub (d18_here ord) false e = false ->
   matrix ord fuel e = Ok e' ->
   (solve_body o e' (pure_doc d) = Ok T <-> solve_body o e (pure_doc d) = Ok T).
-Proof. exact C01_matrix.matrix_truth_flat. Qed.
+Proof. exact C01_matrix.matrix_truth_flat_alt. Qed.
 Check matrix_truth_flat.
 Print Assumptions matrix_truth_flat.
 
@@ -54,6 +64,19 @@ Proof. exact C01_matrix.scope_all_sound. Qed.
 Check scope_all_sound.
 Print Assumptions scope_all_sound.
 
+(* the two conjuncts of Scope.matrix_input_ok that were added for this theorem (cmp_reads of the
+   trees handed to matrix; no quantifier in the condition when identifiers are not inlined) hold
+   of every loaded rule inside the rest of the scope: they never put a rule out of the scope *)
+Theorem matrix_input_extra_loaded : forall o ic ord sw y r,
+  load_rule o ic y = Ok r ->
+  Scope.c01_scope (Scope.sw_without_matrix sw) (r_det r) = true ->
+  Scope.no_quant_ident (d_expr (r_det r)) = true ->
+  forallb Scope.cmp_reads (all_trees (pre_matrix o ord sw (r_det r))) = true /\
+  sw_coalesce sw || Scope.no_match (fst (pre_matrix o ord sw (r_det r))) = true.
+Proof. exact C01_matrix.matrix_input_extra_loaded. Qed.
+Check matrix_input_extra_loaded.
+Print Assumptions matrix_input_extra_loaded.
+
 (* non-vacuity: an or-group of two and-groups over the fields f and g becomes a 2 x 2 table *)
 Example matrix_flat_example :
   let f := [102%N] in let g := [103%N] in
@@ -65,3 +88,27 @@ Example matrix_flat_example :
   exists cols rows, matrix (fun k => k) 10 e = Ok (EMatrix cols rows) /\ length cols = 2%nat /\ length rows = 2%nat.
 Proof. exact C01_matrix.matrix_flat_example. Qed.
 Check matrix_flat_example.
+
+(* the counterexamples to the first versions of the first two statements (without cmp_reads):
+   a str() cast compared with a constant, on a document without the field; the hash order is the
+   identity *)
+Example matrix_exact_flat_refuted :
+  let f := [102%N] in
+  let e := EGroup BOr [EBexp (ECast f MStr) BEqual (EInt 1); EBexp (ECast f MStr) BEqual (EInt 2)] in
+  let d : doc := fun _ => None in
+  wf_body e = true /\ C01.no_nested e = true /\ C01.cmp_leaves e = true /\
+  no_multi_cell (fun k => k) e = true /\ exists_sub (d18_here (fun k => k)) false e = false /\
+  exists e', matrix (fun k => k) 10 e = Ok e' /\
+             solve_body C01.o0 e' (pure_doc d) = Ok M /\ solve_body C01.o0 e (pure_doc d) = Ok F.
+Proof. exact C01_matrix.matrix_exact_flat_refuted. Qed.
+Check matrix_exact_flat_refuted.
+Example matrix_truth_flat_refuted :
+  let f := [102%N] in
+  let e := ENegate (EGroup BOr [EBexp (ECast f MStr) BEqual (EInt 1); EBexp (ECast f MStr) BEqual (EInt 2)]) in
+  let d : doc := fun _ => None in
+  wf_body e = true /\ C01.no_nested e = true /\ C01.cmp_leaves e = true /\
+  exists_sub (d17_here (fun k => k)) false e = false /\ exists_sub (d18_here (fun k => k)) false e = false /\
+  exists e', matrix (fun k => k) 10 e = Ok e' /\
+             solve_body C01.o0 e' (pure_doc d) = Ok F /\ solve_body C01.o0 e (pure_doc d) = Ok T.
+Proof. exact C01_matrix.matrix_truth_flat_refuted. Qed.
+Check matrix_truth_flat_refuted.
